@@ -230,6 +230,10 @@ def reader_agrees(text, games):
 
 
 # ------------------------------------------------------------------ Coq emission
+LABELS = {"Green": "tG", "Yellow": "tY", "Down": "tD", "Left": "tL", "Right": "tR", "Etha": "tE"}
+KEYNAMES = {"game_a": "key_a", "game_b": "key_b", "game_c": "key_c"}
+
+
 class FloatTable:
     def __init__(self):
         self.names = {}
@@ -269,7 +273,7 @@ def cgame_short(g, ft):
             else:
                 if not isinstance(t[0], str):
                     raise NotRepresentable(t)
-                items.append("ta %s %d" % (cstr(t[0]), t[1]))
+                items.append("%s %d" % (LABELS.get(t[0]) or "ta " + cstr(t[0]), t[1]))
         rows.append("[" + ";".join(items) + "]")
     for f in g["final_states"]:
         if not isinstance(f, int) or f < 0:
@@ -285,7 +289,7 @@ def cboard_case(c, games, ft):
     for k, g in games.items():
         if not isinstance(k, str):
             raise NotRepresentable(k)
-        named.append("(%s, %s)" % (cstr(k), cgame_short(g, ft)))
+        named.append("(%s, %s)" % (KEYNAMES.get(k) or cstr(k), cgame_short(g, ft)))
     rows_n = lambda m: clist([cnats(r) for r in m])
     for m in c["moves"] + c["loose"]:
         for x in m:
